@@ -7,6 +7,7 @@ import FsVerif.Proofs.Fleet
 import FsVerif.Proofs.SlotBind
 import FsVerif.Proofs.CBeltBind
 import FsVerif.Proofs.SlotWake
+import FsVerif.Proofs.CBeltTrig
 namespace FsVerif.Props.C04
 open FsVerif PosStore
 
@@ -62,8 +63,8 @@ theorem fleet_get_side {s : FleetStore} (h : FleetStore.ReachD s) (hq : s.b.getQ
 
 /-! ### both conveyor stores, retrieval side: in every reachable state (every API call and every kernel event: arrivals at the exit,
 interrupts, resumes, the state machine), whenever a retrieval request is waiting every item at the exit is bound to a granted
-retrieval — no request waits while an unreserved item is available.  (The put side of the slotted conveyor is proved further below; on the continuous conveyor it depends on the belt pattern and is decided
-by the lock-step correspondence and the C04 judge.) -/
+retrieval — no request waits while an unreserved item is available.  (The put side of the slotted conveyor is proved further below; for the continuous conveyor only its operation-local part is,
+`cbelt_put_side_partial`.) -/
 
 theorem slot_get_side (cfg : SlotCfg) (ops : List SlotBelt.Op) :
     let s := SlotBelt.run (SlotBelt.init cfg) ops
@@ -114,6 +115,31 @@ theorem slot_put_side_end_of_instant (cfg : SlotCfg) (ops : List SlotBelt.Op) :
 /-- non-vacuity: a space request waits on a slotted conveyor whose youngest item entered less than one slot delay ago -/
 example : let s := SlotBelt.run (SlotBelt.init { cap := 3, delay := 2 }) [.reservePut 0, .put 0 0 { id := 5 }, .ev, .reservePut 0]
     s.putQ ≠ [] ∧ s.admits = false ∧ s.queue.map (·.time) = [2] := by decide +kernel
+
+/-! ### continuous conveyor, put side — PARTIAL.  Full statement: in every reachable state in which a space request waits although the belt
+would admit an item, a kernel event of the current instant that re-evaluates the queue is still pending (as `slot_put_side` for the slotted
+store).  Proved here: the operation-local part — every operation of the store that can make room or free the entry ends by re-evaluating the
+queue, and right after it no servable request is left: a new request, the cancellation of a waiting or granted space request, an accepted
+`get`, the arrival of an item at the exit (for every live move process, in every reachable state), the end of an item's entry phase.
+Missing: the clock-driven case — that the entry-phase timer of the youngest item is still pending whenever its entry slot is not yet free
+(it needs the accounting of interrupted items); it is decided by the lock-step correspondence and the wake-up reading of a divergence. -/
+
+theorem cbelt_put_side_partial (cfg : CCfg) (ops : List CBelt.Op) :
+    let s := CBelt.run (CBelt.init cfg) ops
+    (∀ p, CBelt.Settled (s.reservePut p).1) ∧
+    (∀ tid, (s.cancelPut tid).2 = .ok → CBelt.Settled (s.cancelPut tid).1) ∧
+    (∀ p tid x, (s.get p tid).2 = .item x → CBelt.Settled (s.get p tid).1) ∧
+    (∀ p ∈ s.procs, CBelt.Settled (s.arrive p)) ∧
+    CBelt.Settled (s.handle .p1e) := by
+  intro s
+  have hpi : CBelt.PI s := CBelt.run_pi ops _ (CBelt.init_pi cfg)
+  have hrc : CBelt.RC s := CBelt.run_rc ops _ (CBelt.init_rc cfg)
+  exact ⟨fun p => CBelt.reservePut_settled s p, fun tid h => CBelt.cancelPut_settled s tid h, fun p tid x h => CBelt.get_settled s p tid x h,
+         fun p hp => CBelt.arrive_settled hpi hrc.room hp, CBelt.p1e_settled s⟩
+
+/-- non-vacuity: two space requests on an empty continuous conveyor, the granted one cancelled: the waiting one is granted in that step -/
+example : ((CBelt.run (CBelt.init { cap := 3, p1 := 4, acc := true }) [.reservePut 1, .reservePut 1]).cancelPut 0).1.putRes.map (·.id) = [1] := by
+  decide +kernel
 
 /-! ### non-vacuity: reachable states in which a request IS waiting (the premises are satisfiable): a full positional store
 with a second space request queued, and a BufferStore whose only item is still in its delay while a retrieval waits -/
